@@ -41,8 +41,22 @@ type Stats struct {
 	Files, Yields, Splits int
 }
 
+// Options widens what counts as shared state.
+type Options struct {
+	// Fields are struct field names treated like package-level variables: a
+	// statement mentioning x.<field> gets a preemption point in front of it.
+	Fields []string
+}
+
 // RewriteDir rewrites all non-test .go files of dir in place.
-func RewriteDir(dir string) (Stats, error) {
+func RewriteDir(dir string) (Stats, error) { return RewriteDirOpts(dir, Options{}) }
+
+// RewriteDirOpts is RewriteDir with options.
+func RewriteDirOpts(dir string, opt Options) (Stats, error) {
+	fields := map[string]bool{}
+	for _, f := range opt.Fields {
+		fields[f] = true
+	}
 	var st Stats
 	fset := token.NewFileSet()
 	pkgs, err := parser.ParseDir(fset, dir, func(fi os.FileInfo) bool { return !strings.HasSuffix(fi.Name(), "_test.go") }, parser.ParseComments)
@@ -66,7 +80,7 @@ func RewriteDir(dir string) (Stats, error) {
 			}
 		}
 		for name, f := range pkg.Files {
-			r := &rewriter{fset: fset, vars: vars, file: filepath.Base(name)}
+			r := &rewriter{fset: fset, vars: vars, fields: fields, file: filepath.Base(name)}
 			for _, d := range f.Decls {
 				fd, ok := d.(*ast.FuncDecl)
 				if !ok || fd.Body == nil || fd.Name.Name == "init" {
@@ -116,6 +130,7 @@ func RewriteDir(dir string) (Stats, error) {
 
 type rewriter struct {
 	fset   *token.FileSet
+	fields map[string]bool
 	vars   map[string]bool
 	locals map[string]bool
 	file   string
@@ -132,6 +147,17 @@ func (r *rewriter) mentions(n ast.Node) bool {
 		case *ast.FuncLit:
 			return false
 		case *ast.SelectorExpr:
+			// any selector of the chain may name a shared field
+			for e := ast.Expr(v); ; {
+				se, ok := e.(*ast.SelectorExpr)
+				if !ok {
+					break
+				}
+				if r.fields[se.Sel.Name] {
+					found = true
+				}
+				e = se.X
+			}
 			// only the left-most identifier can be a package-level variable
 			ast.Inspect(v.X, func(y ast.Node) bool {
 				if id, ok := y.(*ast.Ident); ok && r.isPkgVar(id) {
@@ -204,7 +230,21 @@ func (r *rewriter) block(b *ast.BlockStmt) {
 func (r *rewriter) stmts(list []ast.Stmt) []ast.Stmt {
 	var out []ast.Stmt
 	for _, s := range list {
+		// function literals are bodies of their own (own lock state)
+		ast.Inspect(s, func(x ast.Node) bool {
+			if fl, ok := x.(*ast.FuncLit); ok {
+				saved := r.locked
+				r.locked = false
+				r.block(fl.Body)
+				r.locked = saved
+				return false
+			}
+			return true
+		})
 		if isLockCall(s, "Lock", "RLock") {
+			if !r.locked && r.mentions(s) {
+				out = append(out, r.yieldStmt(s.Pos())) // before acquiring: nothing is held yet
+			}
 			r.locked = true
 		}
 		// record locals declared by this statement
